@@ -61,7 +61,7 @@ def run(rep, tier, seed, replay, proof_ok, proof_msg):
     binaries = {cfg: path for _, _, cfg, path in compiled if cfg is not None}
     n_eval = 0
     if binaries:
-        cases = C01.gen_cases("quick", seed, sorted(binaries), n=30 * len(binaries), tag="C19")
+        cases = C01.gen_cases("quick", seed, sorted(binaries), n=(30 if tier == "quick" else 400) * len(binaries), tag="C19")
         results = core.run_cases(cases, binaries)
         for r in results:
             n_eval += 1
@@ -84,7 +84,7 @@ def run(rep, tier, seed, replay, proof_ok, proof_msg):
     n_hist = 0
     if fbin:
         fcases = []
-        for k in range(8 * len(fbin)):
+        for k in range((8 if tier == "quick" else 150) * len(fbin)):
             r_ = gen.rng(seed, "C19f", k)
             fcases.append(ftree.make_case("c19f-%d" % k, sorted(fbin)[k % len(fbin)], r_, "quick", True, True))
         for r in ftree.run_cases(fcases, fbin):
